@@ -472,3 +472,28 @@ def empty_value_programs():
                     out.append(pre + '%s %s() { int x = 0; int[] arr = [1]; %s%s }\nempty @is_you() { %s }'
                                % (ret, name, p.replace('%s', e), ' return 1;' if ret == 'int' else '', call))
     return out
+
+
+def mentioned_name_programs():
+    """calls of *undefined* functions whose names the compiler's own sources mention as string literals (builtin names, names that
+    diagnostics special-case for hints, attribute names), in each flavour and with several argument shapes: every one must end in a
+    located diagnostic (or compile, for real builtins) - diagnostic code paths are where unguarded lookups hide"""
+    import glob, re
+    names = set()
+    for f in glob.glob(os.path.join(hidlib.REPO, "hidc", "**", "*.py"), recursive=True):
+        try: txt = open(f, encoding='utf-8').read()
+        except Exception: continue
+        for m in re.finditer(r"""['"]([A-Za-z_][A-Za-z_0-9]{1,14})['"]""", txt):
+            names.add(m.group(1))
+    names = sorted(n for n in names if n not in ('int', 'byte', 'bool', 'string', 'empty', 'const', 'if', 'else', 'while', 'for', 'try', 'undo',
+                                                 'stop', 'preempt', 'return', 'break', 'continue', 'is', 'not', 'and', 'or', 'true', 'false'))
+    out = []
+    argsets = ['', '"s"', '1', "'c'", '1, 2', 'true', '[1, 2]']
+    for i, n in enumerate(names):
+        for j, a in enumerate(argsets):
+            out.append('empty @is_you() { %s(%s); }' % (n, a))
+            if (i + j) % 2 == 0:
+                out.append('empty @is_you() { @%s(%s); }' % (n, a))
+                out.append('empty @is_you() { try { !%s(%s); } undo { } }' % (n, a))
+                out.append('empty !d() { !%s(%s); }\nempty @is_you() { try { !d(); } undo { } }' % (n, a))
+    return out
